@@ -323,6 +323,53 @@ func ruleF7w(c *Ctx) *RuleResult {
 		r.undecided("clientStreamDownloader.curSegmentID not found")
 		return r
 	}
+	readsEndlist := func(g *ssa.Function) bool {
+		if g == nil || g.Blocks == nil {
+			return false
+		}
+		found := false
+		allInstrs(g, func(x ssa.Instruction) {
+			if u, ok := x.(*ssa.UnOp); ok && u.Op == token.MUL {
+				if ff, _ := fieldOfAddr(u.X); ff != nil && ff.Name() == "Endlist" {
+					found = true
+				}
+			}
+		})
+		return found
+	}
+	isEndlistRead := func(x ssa.Instruction) bool {
+		if u, ok := x.(*ssa.UnOp); ok && u.Op == token.MUL {
+			ff, _ := fieldOfAddr(u.X)
+			return ff != nil && ff.Name() == "Endlist"
+		}
+		// a phase of the same routine that looks at the flag on behalf of its caller
+		if call, ok := x.(*ssa.Call); ok {
+			if g := call.Call.StaticCallee(); g != nil && InLib(g) && readsEndlist(g) {
+				return true
+			}
+		}
+		return false
+	}
+	// escapes: from instruction `from` in fn a nil-error return is reachable without an Endlist read
+	escapes := func(fn *ssa.Function, from ssa.Instruction) string {
+		bad := ""
+		// coming round to the same site again (the download loop) without having looked is an escape too
+		if _, isCall := from.(ssa.CallInstruction); isCall {
+			if pathAvoidingRaw(fn, from, func(x ssa.Instruction) bool { return x != from && isEndlistRead(x) }, func(x ssa.Instruction) bool { return x == from }) {
+				bad = c.Pos(from.Pos()) + " (the next iteration)"
+			}
+		}
+		for _, b := range fn.Blocks {
+			ret, ok := b.Instrs[len(b.Instrs)-1].(*ssa.Return)
+			if !ok || b == fn.Recover || isErrorReturn(fn, ret) {
+				continue
+			}
+			if pathAvoidingRaw(fn, from, isEndlistRead, func(x ssa.Instruction) bool { return x == ssa.Instruction(ret) }) {
+				bad = c.Pos(posOf(ret))
+			}
+		}
+		return bad
+	}
 	n := 0
 	for _, fn := range c.clientFuncs() {
 		if fn.Blocks == nil {
@@ -335,22 +382,22 @@ func ruleF7w(c *Ctx) *RuleResult {
 			n++
 			key := fmt.Sprintf("%s|advance#%d", FuncName(fn), n)
 			what := "after the last segment of an ENDLIST playlist the end-of-stream marker follows, whatever the segment was"
-			isEndlistRead := func(x ssa.Instruction) bool {
-				u, ok := x.(*ssa.UnOp)
-				if !ok || u.Op != token.MUL {
-					return false
-				}
-				ff, _ := fieldOfAddr(u.X)
-				return ff != nil && ff.Name() == "Endlist"
-			}
-			bad := ""
-			for _, b := range fn.Blocks {
-				ret, ok := b.Instrs[len(b.Instrs)-1].(*ssa.Return)
-				if !ok || b == fn.Recover || isErrorReturn(fn, ret) {
-					continue
-				}
-				if pathAvoidingRaw(fn, st, isEndlistRead, func(x ssa.Instruction) bool { return x == ssa.Instruction(ret) }) {
-					bad = c.Pos(posOf(ret))
+			bad := escapes(fn, st)
+			if bad != "" {
+				// the store sits in a phase (`pickNextSegment`): judge the rest of the routine at its call sites
+				callers := c.callersOf(fn)
+				if len(callers) > 0 {
+					bad2 := ""
+					for _, e := range callers {
+						if e.Site == nil || e.Caller.Func.Blocks == nil {
+							bad2 = bad
+							continue
+						}
+						if w := escapes(e.Caller.Func, e.Site); w != "" {
+							bad2 = w
+						}
+					}
+					bad = bad2
 				}
 			}
 			if bad == "" {
